@@ -23,12 +23,38 @@ class _FakeSession:
             if isinstance(l, cls): return l
     def add_listener(self, l): self._listeners.add(l)
 
+# ------------------------------------------------------------------ the ways a caller hands over the filter
+# The streaming parser accepts the filter as XML text or as an lxml element (_get_sax_parser_root).  A filter is a
+# filter whatever its shape: an lxml element WITHOUT children (a single-leaf filter such as <name/>) is falsy, a
+# sub-element of a larger tree has a parent and siblings, one element object may serve several requests.
+FILTER_FORMS = ('text', 'bytes', 'element', 'subelement', 'shared')
+# ... and the ways a request has NO filter: filter_xml=None, the argument left out, request classes that never have
+# the attribute (every operation except ExecuteRpc)
+NOFILTER_FORMS = ('none', 'default', 'command', 'getconf')
+
+def filter_object(fstr, form='text', shared=None):
+    """The object handed over as filter_xml for the filter written `fstr` (XML text)."""
+    from lxml import etree
+    if form in (None, 'text'): return fstr
+    if form == 'bytes': return fstr.encode()
+    if form == 'element': return etree.fromstring(fstr)
+    if form == 'subelement':
+        return etree.fromstring('<filter><before/>' + fstr + '<after>t</after></filter>')[1]
+    if form == 'shared':
+        if shared is None: return etree.fromstring(fstr)
+        if fstr not in shared: shared[fstr] = etree.fromstring(fstr)
+        return shared[fstr]
+    raise ValueError('unknown filter form %r' % (form,))
+
+def default_form(f): return 'text' if f is not None else 'none'
+
 EXN = {'SAXFilterXMLNotFoundError': 'Switch', 'OperationError': 'Operation', 'KeyError': 'Key', 'IndexError': 'Index',
        'AttributeError': 'Attr', 'SyntaxError': 'Syntax', 'TypeError': 'Type'}
 
-def handler_run(doc, table, listener=True, chunk=None):
+def handler_run(doc, table, listener=True, chunk=None, form='text'):
     """Feed `doc` (bytes) to a fresh real SAXParser handler under expat.  `table`: dict message-id -> filter string,
-    None (request without filter) or 'bare' (request object without the attribute).
+    None (request without filter) or 'bare' (request object without the attribute); `form`: how a filter string is
+    handed over (FILTER_FORMS).
     Returns (events, outcome, output bytes); events = list of ('S', name, [(k, v)...]) / ('E', name) / ('C', text)
     exactly as the handler received them; outcome 'Done' or the exception class name (EXN enum or raw name)."""
     from xml.sax import make_parser
@@ -39,7 +65,7 @@ def handler_run(doc, table, listener=True, chunk=None):
     if listener:
         l = rpcmod.RPCReplyListener(s, None)
         for mid, f in table.items():
-            l._id2rpc[mid] = _BareRpc() if f == 'bare' else _FakeRpc(f)
+            l._id2rpc[mid] = _BareRpc() if f == 'bare' else _FakeRpc(f if f is None else filter_object(f, form))
     events = []
     class Tee(SAXParser):
         def startElement(self, tag, attributes):
@@ -120,22 +146,34 @@ def reply_bytes(mid, body, nc=False, extra_attrs=''):
         return ('<nc:rpc-reply xmlns:nc="%s" message-id="%s"%s>%s</nc:rpc-reply>' % (BASE_NS, mid, extra_attrs, body)).encode()
     return ('<rpc-reply message-id="%s"%s>%s</rpc-reply>' % (mid, extra_attrs, body)).encode()
 
-def run_stream(segments, filters, use_filter=True):
-    """One session, len(filters) pipelined ExecuteRpc requests (filter string or None), the given read segments.
-    Returns a list with one outcome per request:
-      ('reply', raw xml text, transformed xml text) | ('error', class name) | ('pending',)
-    plus the session-level outcome."""
-    from ncclient.operations.third_party.juniper.rpc import ExecuteRpc
+def issue_requests(s, dh, filters, forms=None):
+    """len(filters) pipelined requests on session s.  filters[i]: filter string or None; forms[i]: how it is handed
+    over (FILTER_FORMS) resp. how the request comes to have no filter (NOFILTER_FORMS); default text / None."""
+    from ncclient.operations.third_party.juniper.rpc import ExecuteRpc, Command, GetConfiguration
     from ncclient.operations import RaiseMode
-    from ncclient.xml_ import NCElement
-    s, dh = make_session(use_filter)
-    objs = []
-    for f in filters:
-        o = ExecuteRpc(s, dh, async_mode=True, raise_mode=RaiseMode.NONE, timeout=1)
-        o.request('<get-software-information/>', filter_xml=f)
+    objs, shared = [], {}
+    kw = dict(async_mode=True, raise_mode=RaiseMode.NONE, timeout=1)
+    for i, f in enumerate(filters):
+        form = (forms[i] if forms else None) or default_form(f)
+        if f is not None:
+            if form not in FILTER_FORMS: raise ValueError('form %r for a request with filter' % (form,))
+            o = ExecuteRpc(s, dh, **kw)
+            o.request('<get-software-information/>', filter_xml=filter_object(f, form, shared))
+        elif form == 'none':
+            o = ExecuteRpc(s, dh, **kw); o.request('<get-software-information/>', filter_xml=None)
+        elif form == 'default':
+            o = ExecuteRpc(s, dh, **kw); o.request('<get-software-information/>')
+        elif form == 'command':
+            o = Command(s, dh, **kw); o.request('show version')
+        elif form == 'getconf':
+            o = GetConfiguration(s, dh, **kw); o.request()
+        else:
+            raise ValueError('form %r for a request without filter' % (form,))
         objs.append(o)
-    s.segments = list(segments)
-    s.run()
+    return objs
+
+def collect_results(objs, dh):
+    from ncclient.xml_ import NCElement
     res = []
     for o in objs:
         if o.reply is not None:
@@ -152,6 +190,16 @@ def run_stream(segments, filters, use_filter=True):
         else:
             res.append(('pending',))
     return res
+
+def run_stream(segments, filters, use_filter=True, forms=None):
+    """One session, len(filters) pipelined requests (filter string or None; forms: see issue_requests), the given
+    read segments.  Returns a list with one outcome per request:
+      ('reply', raw xml text, transformed xml text) | ('error', class name) | ('pending',)"""
+    s, dh = make_session(use_filter)
+    objs = issue_requests(s, dh, filters, forms)
+    s.segments = list(segments)
+    s.run()
+    return collect_results(objs, dh)
 
 def ids_for(n):
     """The message-ids the next make_session()+n requests will get: ids restart at 1 per _install()."""
